@@ -400,6 +400,12 @@ def to_node(
         table = c.table
         col_source: exp.Table | Scope | None = scope.sources.get(table)
 
+        # A correlated subquery takes this column from an enclosing query
+        outer_scope = scope
+        while col_source is None and (outer_scope.is_subquery or outer_scope.is_union) and outer_scope.parent:
+            outer_scope = outer_scope.parent
+            col_source = outer_scope.sources.get(table)
+
         if isinstance(col_source, Scope):
             reference_node_name = None
             if col_source.scope_type == ScopeType.DERIVED_TABLE and table not in source_names:
